@@ -289,6 +289,24 @@ impl<'de> serde::Deserializer<'de> for Feed<'de> {
     }
 }
 
+/// The same feeds from a format that says it is not human readable (a binary format).
+#[derive(Clone, Copy, Debug)]
+struct Binary<'a>(Feed<'a>);
+
+impl<'de> serde::Deserializer<'de> for Binary<'de> {
+    type Error = ValueError;
+    fn deserialize_any<V: serde::de::Visitor<'de>>(self, v: V) -> Result<V::Value, ValueError> {
+        self.0.deserialize_any(v)
+    }
+    fn is_human_readable(&self) -> bool {
+        false
+    }
+    serde::forward_to_deserialize_any! {
+        bool i8 i16 i32 i64 i128 u8 u16 u32 u64 u128 f32 f64 char str string bytes byte_buf option unit unit_struct
+        newtype_struct seq tuple tuple_struct map struct enum identifier ignored_any
+    }
+}
+
 /// A format that is not self-describing (like bincode): `deserialize_any` is an error, only the requested kind is
 /// served. String asks for `deserialize_string`; a transparent wrapper must ask for a string as well.
 #[derive(Clone, Copy, Debug)]
@@ -352,6 +370,20 @@ fn check_feeds(t: &str, b: &[u8]) -> Result<(), String> {
             Feed::F64(1.5),
         ];
         for f in feeds {
+            // ... and through a deserializer that is not human readable
+            let lb: Result<LeanString, ValueError> = LeanString::deserialize(Binary(f));
+            let sb: Result<String, ValueError> = String::deserialize(Binary(f));
+            match (&lb, &sb) {
+                (Ok(x), Ok(y)) if x == y => {}
+                (Err(_), Err(_)) => {}
+                _ => {
+                    return Err(format!(
+                        "deserialize through {f:?} of a format with is_human_readable() = false: LeanString {:?}, String {:?}",
+                        lb.map(|x| x.as_str().to_string()).map_err(|e| e.to_string()),
+                        sb.map_err(|e| e.to_string())
+                    ));
+                }
+            }
             let l: Result<LeanString, ValueError> = LeanString::deserialize(f);
             let s: Result<String, ValueError> = String::deserialize(f);
             match (&l, &s) {
